@@ -465,3 +465,226 @@ pub proof fn lemma_c08_line_facts(a: V1Addresses)
         },
     }
 }
+
+// ======================================================================================
+// C12, v1 half: a complete well-formed line with exactly ONE element corrupted is rejected with the terminal
+// kind that names the element.  The statement is about the verdict functions; the exec-to-verdict link is the
+// acceptance / classification / exact-kind clauses proved on the parsers.
+// ======================================================================================
+
+/// the kind the address / port cascade reports for the four fields of a TCP line
+pub open spec fn c12_field_kind(v4: bool, a: Seq<u8>, b: Seq<u8>, p: Seq<u8>, q: Seq<u8>) -> Option<V1K> {
+    let bad_a = if v4 { from_str_spec::<std::net::Ipv4Addr>(a) is Err } else { from_str_spec::<std::net::Ipv6Addr>(a) is Err };
+    let bad_b = if v4 { from_str_spec::<std::net::Ipv4Addr>(b) is Err } else { from_str_spec::<std::net::Ipv6Addr>(b) is Err };
+    if bad_a { Some(V1K::InvalidSourceAddress) }
+    else if bad_b { Some(V1K::InvalidDestinationAddress) }
+    else if port_field(p) is None { Some(V1K::InvalidSourcePort) }
+    else if port_field(q) is None { Some(V1K::InvalidDestinationPort) }
+    else { None }
+}
+
+// [props: C12]
+/// fields: a line `PROXY TCP4|TCP6 a b p q CRLF` of at most 107 bytes whose four fields contain no separator (so the
+/// fields stay where they are) and whose last field is not empty is rejected with the kind of its first invalid
+/// field - with exactly one invalid field, the kind that names it - and that kind is terminal, through the line
+/// verdict, the header verdict and both entry points
+#[verifier::rlimit(60)]
+pub proof fn lemma_c12_v1_fields(v4: bool, a: Seq<u8>, b: Seq<u8>, p: Seq<u8>, q: Seq<u8>)
+    requires
+        no_sep(a), no_sep(b), no_sep(p), no_sep(q), q.len() > 0,
+        tcp_line(if v4 { b_tcp4() } else { b_tcp6() }, a, b, p, q).len() <= 107,
+        c12_field_kind(v4, a, b, p, q) is Some,
+    ensures ({
+        let l = tcp_line(if v4 { b_tcp4() } else { b_tcp6() }, a, b, p, q);
+        let k = c12_field_kind(v4, a, b, p, q)->Some_0;
+        &&& line_verdict(l) == V1V::Reject(k)
+        &&& header_verdict(l) == V1V::Reject(k)
+        &&& !v1k_incomplete(k)
+        &&& vstd::utf8::valid_utf8(l) ==> entry_verdict_str(l) == V1V::Reject(k) && entry_verdict_bytes(l) == V1BV::Line(V1V::Reject(k))
+    }),
+{
+    broadcast use crate::prelude::prelude_parse_axioms;
+    broadcast use crate::prelude::prelude_str_axioms;
+    broadcast use crate::prelude::prelude_utf8_axioms;
+    let kw = if v4 { b_tcp4() } else { b_tcp6() };
+    let l = tcp_line(kw, a, b, p, q);
+    lemma_keywords_no_sep();
+    lemma_tcp_line_split(kw, a, b, p, q);
+    let parts = splitn_spec(l, 7);
+    assert(parts =~= seq![b_proxy(), kw, a, b, p, q, seq![10u8]]);
+    let n = l.len() as int;
+    assert(l[n - 1] == 10u8 && l[n - 2] == 13u8);
+    assert(!is_suffix_of(b_proxy(), l)) by {
+        if is_suffix_of(b_proxy(), l) { assert(l.subrange(n - 5, n)[4] == l[n - 1]); }
+    }
+    assert(parts[1] =~= kw);
+    assert(!(b_tcp4() =~= b_tcp6())) by { assert(b_tcp4()[3] != b_tcp6()[3]); }
+    // the window of the line is the line: its only CR is the one of the CRLF
+    lemma_c12_line_window(kw, a, b, p, q);
+    let k = c12_field_kind(v4, a, b, p, q)->Some_0;
+    assert(l.len() > 0 && l.len() <= 107);
+    assert(parts[0] =~= b_proxy());
+    assert(parts.len() == 7);
+    if v4 {
+        assert(parts[1] =~= b_tcp4());
+        assert(addr_fields_kind::<std::net::Ipv4Addr>(parts) == Some(k));
+    } else {
+        assert(parts[1] =~= b_tcp6());
+        assert(!(parts[1] =~= b_tcp4()));
+        assert(addr_fields_kind::<std::net::Ipv6Addr>(parts) == Some(k));
+    }
+    assert(line_verdict(l) == V1V::Reject(k));
+    assert(!v1k_incomplete(k));
+    assert(header_verdict(l) == V1V::Reject(k));
+    // the LF is US-ASCII: the cut after it is a character boundary whenever the line is text
+    assert(entry_verdict_bytes(l) == V1BV::Line(V1V::Reject(k)) || !valid_utf8(v1_window(l)));
+    if vstd::utf8::valid_utf8(l) {
+        assert(valid_utf8(v1_window(l))) by { reveal(valid_utf8); };
+        lemma_boundary_ends(l);
+        assert(str_cut_ok(l, l.len() as int));
+        assert(entry_verdict_str(l) == V1V::Reject(k));
+    }
+}
+
+// [props: C12]
+/// a TCP-shaped line whose fields contain no separator: its first CR is the one of the final CRLF, so the line is
+/// its own window, is terminated... no: it ends with the LF, the byte after the CR
+pub proof fn lemma_c12_line_window(kw: Seq<u8>, a: Seq<u8>, b: Seq<u8>, p: Seq<u8>, q: Seq<u8>)
+    requires no_sep(kw), no_sep(a), no_sep(b), no_sep(p), no_sep(q), tcp_line(kw, a, b, p, q).len() <= 107
+    ensures ({
+        let l = tcp_line(kw, a, b, p, q);
+        &&& first_index_of(l, 13u8) + 2 == l.len()
+        &&& v1_window(l) =~= l
+        &&& v1_terminated(l)
+        &&& !v1_too_long(l)
+        &&& str_cut_ok(l, l.len() as int) == vstd::utf8::is_char_boundary(l, l.len() as int)
+    }),
+{
+    broadcast use crate::prelude::prelude_str_axioms;
+    let l = tcp_line(kw, a, b, p, q);
+    let n = l.len() as int;
+    lemma_keywords_no_sep();
+    lemma_first_index_bounds(l, 13u8);
+    let c = first_index_of(l, 13u8);
+    assert(l[n - 2] == 13u8);
+    if c < n - 2 {
+        // a CR before the CRLF would lie inside PROXY, a space, or one of the fields
+        lemma_line_bytes_nosep(kw, a, b, p, q, c);
+    }
+}
+
+// [props: C12]
+/// every byte of the line before its CRLF is a byte of `PROXY`, a space, or a byte of one of the (separator-free) fields
+pub proof fn lemma_line_bytes_nosep(kw: Seq<u8>, a: Seq<u8>, b: Seq<u8>, p: Seq<u8>, q: Seq<u8>, j: int)
+    requires no_sep(kw), no_sep(a), no_sep(b), no_sep(p), no_sep(q), 0 <= j < tcp_line(kw, a, b, p, q).len() - 2
+    ensures tcp_line(kw, a, b, p, q)[j] != 13u8
+{
+    let l = tcp_line(kw, a, b, p, q);
+    let o1 = 6int; let o2 = o1 + kw.len() + 1; let o3 = o2 + a.len() + 1; let o4 = o3 + b.len() + 1; let o5 = o4 + p.len() + 1;
+    if j < 5 { assert(l[j] == b_proxy()[j]); }
+    else if j == 5 { assert(l[j] == 32u8); }
+    else if j < o1 + kw.len() { assert(l[j] == kw[j - o1]); }
+    else if j == o2 - 1 { assert(l[j] == 32u8); }
+    else if j < o2 + a.len() { assert(l[j] == a[j - o2]); }
+    else if j == o3 - 1 { assert(l[j] == 32u8); }
+    else if j < o3 + b.len() { assert(l[j] == b[j - o3]); }
+    else if j == o4 - 1 { assert(l[j] == 32u8); }
+    else if j < o4 + p.len() { assert(l[j] == p[j - o4]); }
+    else if j == o5 - 1 { assert(l[j] == 32u8); }
+    else { assert(l[j] == q[j - o5]); }
+}
+
+// [props: C12]
+/// keyword: a line whose first field is not `PROXY` (no separator inside it; the line ends in LF, at most 107 bytes)
+/// is rejected with the terminal `InvalidPrefix`
+pub proof fn lemma_c12_v1_keyword(kw0: Seq<u8>, rest: Seq<u8>)
+    requires
+        no_sep(kw0), !(kw0 =~= b_proxy()), rest.len() > 0, rest[rest.len() - 1] == 10u8,
+        (kw0 + sp() + rest).len() <= 107,
+    ensures
+        line_verdict(kw0 + sp() + rest) == V1V::Reject(V1K::InvalidPrefix),
+        header_verdict(kw0 + sp() + rest) == V1V::Reject(V1K::InvalidPrefix),
+        !v1k_incomplete(V1K::InvalidPrefix),
+{
+    let w = kw0 + sp() + rest;
+    assert(w =~= kw0 + seq![32u8] + rest);
+    lemma_split_cons(kw0, 32u8, rest, 7);
+    let parts = splitn_spec(w, 7);
+    assert(parts[0] =~= kw0);
+    let n = w.len() as int;
+    assert(w[n - 1] == 10u8);
+    // the line does not END with its first field: that field contains no LF ... unless it is empty, which is no prefix `Partial` either
+    if kw0.len() > 0 && is_prefix_of(kw0, b_proxy()) && is_suffix_of(kw0, w) {
+        assert(w.subrange(n - kw0.len(), n)[kw0.len() - 1] == w[n - 1]);
+        assert(kw0[kw0.len() - 1] == 10u8);
+        assert(b_proxy().subrange(0, kw0.len() as int)[kw0.len() - 1] == kw0[kw0.len() - 1]);
+        assert forall|j: int| 0 <= j < 5 implies b_proxy()[j] != 10u8 by {}
+        assert(false);
+    }
+}
+
+// [props: C12]
+/// protocol: `PROXY <x> ...LF` where `x` is none of the three keywords (no separator inside it) is rejected with the
+/// terminal `InvalidProtocol`
+pub proof fn lemma_c12_v1_protocol(x: Seq<u8>, rest: Seq<u8>)
+    requires
+        no_sep(x), !(x =~= b_tcp4()), !(x =~= b_tcp6()), !(x =~= b_unknown()),
+        rest.len() > 0, rest[rest.len() - 1] == 10u8,
+        (b_proxy() + sp() + x + sp() + rest).len() <= 107,
+    ensures
+        line_verdict(b_proxy() + sp() + x + sp() + rest) == V1V::Reject(V1K::InvalidProtocol),
+        header_verdict(b_proxy() + sp() + x + sp() + rest) == V1V::Reject(V1K::InvalidProtocol),
+        !v1k_incomplete(V1K::InvalidProtocol),
+{
+    lemma_keywords_no_sep();
+    let tail = x + seq![32u8] + rest;
+    let w = b_proxy() + sp() + x + sp() + rest;
+    assert(w =~= b_proxy() + seq![32u8] + tail);
+    lemma_split_cons(b_proxy(), 32u8, tail, 7);
+    lemma_split_cons(x, 32u8, rest, 6);
+    let parts = splitn_spec(w, 7);
+    lemma_split_len(rest, 5);
+    assert(parts[0] =~= b_proxy());
+    assert(parts[1] =~= x);
+    assert(parts.len() >= 3);
+    let n = w.len() as int;
+    assert(w[n - 1] == 10u8);
+    assert(!is_suffix_of(b_proxy(), w)) by {
+        if is_suffix_of(b_proxy(), w) { assert(w.subrange(n - 5, n)[4] == w[n - 1]); }
+    }
+    if x.len() > 0 && is_suffix_of(x, w) {
+        assert(w.subrange(n - x.len(), n)[x.len() - 1] == w[n - 1]);
+        assert(x[x.len() - 1] == 10u8);
+        // a prefix of TCP4 / UNKNOWN contains no LF
+        if is_prefix_of(x, b_tcp4()) { assert(b_tcp4().subrange(0, x.len() as int)[x.len() - 1] == x[x.len() - 1]); assert forall|j: int| 0 <= j < 4 implies b_tcp4()[j] != 10u8 by {} }
+        if is_prefix_of(x, b_unknown()) { assert(b_unknown().subrange(0, x.len() as int)[x.len() - 1] == x[x.len() - 1]); assert forall|j: int| 0 <= j < 7 implies b_unknown()[j] != 10u8 by {} }
+    }
+}
+
+// [props: C12]
+/// the byte that follows the CR, the 107-byte limit, invalid UTF-8 - through the entry points: a complete line whose
+/// byte after the first CR is not LF is never accepted and never incomplete (C18's condition holds); an input without
+/// CR within 107 bytes, or with its first CR at index 106 or beyond, is `HeaderTooLong`; a window that is not valid
+/// UTF-8 while a CR has arrived is `InvalidUtf8`
+pub proof fn lemma_c12_v1_line_end(s: Seq<u8>)
+    ensures
+        v1_too_long(s) ==> entry_verdict_str(s) == V1V::Reject(V1K::HeaderTooLong) && entry_verdict_bytes(s) == V1BV::Line(V1V::Reject(V1K::HeaderTooLong)),
+        !v1_too_long(s) && first_index_of(s, 13u8) < s.len() && !valid_utf8(v1_window(s)) ==> entry_verdict_bytes(s) is InvalidUtf8,
+        v1_terminated(s) && !v1_too_long(s) && s[first_index_of(s, 13u8) + 1] != 10u8 ==>
+            !(header_verdict(v1_window(s)) is Accept) && !v1v_incomplete(header_verdict(v1_window(s))),
+{
+    broadcast use crate::prelude::prelude_str_axioms;
+    lemma_first_index_bounds(s, 13u8);
+    if v1_terminated(s) && !v1_too_long(s) && s[first_index_of(s, 13u8) + 1] != 10u8 {
+        let w = v1_window(s);
+        let cr = first_index_of(s, 13u8);
+        assert(w.len() == cr + 2);
+        assert(w[cr + 1] == s[cr + 1]);
+        lemma_first_index_prefix(s, cr + 2, 13u8);
+        assert(v1_terminated(w));
+        if header_verdict(w) is Accept {
+            lemma_accept_shape(w);
+            assert(w.subrange(w.len() - 2, w.len() as int)[1] == 10u8);
+        }
+    }
+}
